@@ -204,8 +204,7 @@ UNITS += [text_bom]
 file_put = Unit(
     'File_put', 'C17',
     cuts=[Cut('put', FC, r'^bool File::put\(const ByteArray& data\)\s*$',
-              rules=[(r'!_file && !open\(_path, WRITE\)', '!g_open && !VF_OPEN_WRITE()', None), (r'(?<![\w.>])write\(data\.data\(\), data\.length\(\)\) == data\.length\(\)', 'VF_WRITE(g_n) == g_n', None),
-                     (r'data\.length\(\)', 'g_n', None), (r'return ([^;]*);', r'{ g_ret = (\1); return; }', None)])],
+              rules=[(r'!_file && !open\(_path, WRITE\)', '!g_open && !VF_OPEN_WRITE()', None), (r'data\.length\(\)', 'g_n', None), (r'(?<![\w.>])write\(data\.data\(\), ([^;()]+)\)', r'VF_WRITE(\1)', None), (r'return ([^;]*);', r'{ g_ret = (\1); return; }', None)])],
     text=PRE + r'''
 int g_n, g_open, g_opened_for_write, g_written, g_ret;
 static bool VF_OPEN_WRITE(void) { if (nondet_bool()) return false; g_open = 1; g_opened_for_write = 1; return true; }      /* open(path, WRITE): creates / truncates */
@@ -228,7 +227,7 @@ void vf_harness(void) { File_put(); VF_CANARY(); }
 tf_stream = Unit(
     'TextFile_stream_cstr', 'C17',
     cuts=[Cut('op', TF, r'^TextFile& TextFile::operator<<\(const char\* x\)\s*$',
-              rules=[(r'!_file && !open\(WRITE\)', '!g_open && !VF_OPEN()', None), (r'fputs\(x, _file\);', 'VF_PUTS(x);', None), (r'fwrite\(x, 1, ([^,]+), _file\)', r'VF_WRITE(x, \1)', None),
+              rules=[(r'fputs\(x, _file\);', 'VF_PUTS(x);', None), (r'(?<![\w.>])open\(WRITE\)', 'VF_OPEN()', None), (r'(?<![\w.>])_file\b(?!\))', 'g_open', None), (r'fwrite\(x, 1, ([^,]+), _file\)', r'VF_WRITE(x, \1)', None),
                      (r'(?<![\w.>])printf\(([^;]*)\);', r'VF_PRINTF(\1);', None), (r'fprintf\(_file, ([^;]*)\);', r'VF_PRINTF(\1);', None), (r'return \*this;', 'return;', None)])],
     text=PRE + r'''
 #include <string.h>
